@@ -194,6 +194,9 @@ def menu():
 MENU = menu()
 
 
+RULE = RULE + ' Family WRITTEN: 17 load-value forms (given / zero / empty fields of every load kind) with each file writer requested.'
+
+
 def bounds(tier, seed):
     return dict(bases=list(BASES), menu=len(MENU), deviations=1 if tier == 'quick' else 2)
 
